@@ -57,7 +57,7 @@ func init() { runners["demux"] = runDemux }
 const dxGate = "demux.run.window"
 
 type dxStep struct {
-	Op   string `json:"op"` // in lread lwrite cancel stop arm rel stuck hold refuse dlv q | ucall sopen ssend srecv sclose
+	Op   string `json:"op"` // in lread lwrite cancel stop arm rel stuck hold refuse adv dlv q | ucall sopen ssend srecv sclose
 	K    string `json:"k"`
 	Inc  int    `json:"inc"` // incarnation of k (0 = latest announced, the first one if none yet)
 	Pay  string `json:"pay"`
@@ -414,6 +414,8 @@ func (rt *dxRT) step(i int, st dxStep) {
 			}
 			tr.emit(e)
 		})
+	case "adv": // virtual time passes (a write held by the shared transport simply waits)
+		time.Sleep(time.Duration(max(st.N, 1)) * time.Millisecond)
 	case "refuse":
 		rt.sh.with(func() { rt.sh.refuse += max(st.N, 1) })
 	case "dlv":
